@@ -134,12 +134,6 @@ private:
     for (unsigned int i = 0; i < l.size(); ++i) {
       interval_t intv = l[i];
 
-      if (prev == intv) {
-        CRAB_LOG("disint", crab::outs() << "-- Normalize: duplicate"
-                                        << "\n");
-        continue;
-      }
-
       if (intv.is_bottom()) {
         CRAB_LOG("disint", crab::outs() << "-- Normalize: bottom interval"
                                         << "\n");
@@ -152,6 +146,14 @@ private:
                                         << "\n");
         is_bottom = false;
         return list_intervals_t();
+      }
+
+      // prev is top until the first interval is added so this test
+      // must come after the one for top intervals.
+      if (prev == intv) {
+        CRAB_LOG("disint", crab::outs() << "-- Normalize: duplicate"
+                                        << "\n");
+        continue;
       }
 
       if (!prev.is_top()) {
